@@ -110,6 +110,17 @@ def gen_cases(fmt, tier):
         cases.append(mk(fmt, base_r, base_p, a, b, c, 10, 300, 99999, code0, None))
     for w in WINDOWS + (WINDOWS_REAL if fmt in ("umist", "uclchem", "naunet", "krome") else []):
         cases.append(mk(fmt, base_r, base_p, 1e-10, 0.0, 0.0, w[0], w[1], 7, code0, None))
+    if fmt in ("umist", "uclchem", "naunet"):
+        # separator-delimited formats: a number is whatever a C / Python reader accepts - no digit before the point,
+        # none after it, explicit plus sign, upper-case exponent
+        for spell in ({"0.5": ".5", "-0.5": "-.5", "25.0": ".25e2"}, {"0.5": "+.5E0", "-0.5": "-5.E-1", "25.0": "25."}, {"0.5": "5e-1", "25.0": "+25"}):
+            c = mk(fmt, base_r, base_p, 0.5, -0.5, 25.0, 10, 300, 7, code0, None)
+            if c is not None:
+                ar_, exp_, line_ = c
+                sep = ":" if fmt == "umist" else ","
+                toks = [spell.get(t.strip(), t) for t in line_.split(sep)]
+                if toks != line_.split(sep):
+                    cases.append((ar_, exp_, sep.join(toks)))
     if fmt == "leeds":
         # the index column is an I5 field: Fortran writes it right-justified (leading blanks)
         for idx in (7, 42, 4956):
